@@ -619,15 +619,21 @@ func ruleRC6() Rule {
 				info := f.Info()
 				comments := c.fieldVar("parser", "lexer", "comments")
 				ok := false
-				f.OwnNodes(func(n ast.Node) bool {
+				isMerge := func(n ast.Node) bool {
 					as, isAs := n.(*ast.AssignStmt)
 					if !isAs || len(as.Lhs) != 1 || core.FieldOf(info, as.Lhs[0]) != comments {
-						return true
+						return false
 					}
 					if call, isCall := as.Rhs[0].(*ast.CallExpr); isCall && isBuiltinCall(info, call, "append") && len(call.Args) == 2 && call.Ellipsis.IsValid() {
 						if core.FieldOf(info, call.Args[1]) == comments && exprStr(call.Args[0]) == exprStr(as.Lhs[0]) {
-							ok = true
+							return true
 						}
+					}
+					return false
+				}
+				f.OwnNodes(func(n ast.Node) bool {
+					if isMerge(n) {
+						ok = true
 					}
 					return true
 				})
@@ -635,6 +641,28 @@ func ruleRC6() Rule {
 					rr.OK(f, f.Name+"|comments merged", f.Pos(), "merged", "the nested lexer's comments are appended to the outer lexer's")
 				} else {
 					rr.Bad(f, f.Name+"|comments merged", f.Pos(), "comments inside $(…) / `…` are collected by the nested lexer and then dropped")
+				}
+				// on every path to a successful return, whatever kind of
+				// substitution was scanned
+				if ok {
+					merged := core.NewFlow(f).MustSeen(false, isMerge, nil)
+					f.OwnNodes(func(n ast.Node) bool {
+						r, isRet := n.(*ast.ReturnStmt)
+						if !isRet || len(r.Results) != 1 {
+							return true
+						}
+						if tv, has := info.Types[r.Results[0]]; !has || tv.Value == nil || tv.Value.String() != "true" {
+							return true
+						}
+						// only returns after a nested lexer was run
+						key := f.Name + "|comments merged before success"
+						if merged[r] {
+							rr.OK(f, key, r.Pos(), "merged", "every path to this successful return appends the nested lexer's comments")
+						} else {
+							rr.Bad(f, key, r.Pos(), "some path to this successful return skips the merge of the nested lexer's comments (e.g. only one kind of substitution merges them): comments inside the other kind are lost")
+						}
+						return true
+					})
 				}
 			}
 		}}
@@ -813,6 +841,9 @@ func ruleHD() Rule {
 				if !ok || info.Uses[id] != quotedObj {
 					return true
 				}
+				if tv, has := info.Types[as.Rhs[0]]; has && tv.Value != nil && tv.Value.String() == "false" {
+					return true // a reset, examined by HD2b below
+				}
 				nset++
 				key := f.Name + "|quoted set for a Quote part"
 				okQ := false
@@ -834,6 +865,176 @@ func ruleHD() Rule {
 			})
 			if nset == 0 {
 				rr.Bad(f, f.Name+"|quoted set for a Quote part", f.Pos(), "`quoted` is never set: a quoted delimiter does not make the body literal")
+			}
+			// HD2b: the flag belongs to one here-document.  It is declared inside the
+			// loop that takes the pending redirections one by one, or cleared by a
+			// statement of that loop's body before the delimiter is examined.
+			popFn := c.fn("parser.(*heredoc).pop")
+			var loop *ast.ForStmt
+			f.OwnNodes(func(n ast.Node) bool {
+				fs, ok := n.(*ast.ForStmt)
+				if ok && loop == nil && fs.Init != nil && c.callsFunc(info, fs.Init, popFn) {
+					loop = fs
+				}
+				return true
+			})
+			key := f.Name + "|quoted is per here-document"
+			// a clearing assignment anywhere else than the head of that loop's body
+			// makes the rest of a quoted here-document expand
+			f.OwnNodes(func(n ast.Node) bool {
+				as, ok := n.(*ast.AssignStmt)
+				if !ok || len(as.Lhs) != 1 || len(as.Rhs) != 1 {
+					return true
+				}
+				id, ok := as.Lhs[0].(*ast.Ident)
+				if !ok || info.Uses[id] != quotedObj {
+					return true
+				}
+				if tv, has := info.Types[as.Rhs[0]]; !has || tv.Value == nil || tv.Value.String() != "false" {
+					return true
+				}
+				atHead := false
+				if loop != nil {
+					for _, st := range loop.Body.List {
+						if st == ast.Stmt(as) {
+							atHead = true
+						}
+						if _, isRange := st.(*ast.RangeStmt); isRange {
+							break
+						}
+					}
+				}
+				if !atHead {
+					rr.Bad(f, f.Name+"|quoted cleared only between here-documents", as.Pos(), "`quoted` is cleared while a here-document is being read: the rest of a body with a quoted delimiter is scanned for expansions")
+				}
+				return true
+			})
+			switch {
+			case loop == nil:
+				rr.Unk(f, key, f.Pos(), "no loop taking pending here-documents with pop() found")
+			case quotedObj.Pos() >= loop.Body.Pos() && quotedObj.Pos() < loop.Body.End():
+				rr.OK(f, key, quotedObj.Pos(), "fresh", "declared inside the per-here-document loop, so it starts false for each")
+			default:
+				reset := false
+				for _, st := range loop.Body.List {
+					if as, ok := st.(*ast.AssignStmt); ok && len(as.Lhs) == 1 && len(as.Rhs) == 1 {
+						if id, ok := as.Lhs[0].(*ast.Ident); ok && info.Uses[id] == quotedObj {
+							if tv, has := info.Types[as.Rhs[0]]; has && tv.Value != nil && tv.Value.String() == "false" {
+								reset = true
+							}
+						}
+					}
+					if _, isRange := st.(*ast.RangeStmt); isRange {
+						break
+					}
+				}
+				if reset {
+					rr.OK(f, key, quotedObj.Pos(), "reset", "cleared at the start of each here-document")
+				} else {
+					rr.Bad(f, key, quotedObj.Pos(), "`quoted` is declared outside the loop over the pending here-documents and never cleared in it: after one quoted delimiter every later body read by the same call is kept literal too")
+				}
+			}
+		}}
+}
+
+// ---------------------------------------------------------------------------
+// HD6: every here-document operator is counted.
+//
+// The lexer counts an announced here-document when it scans the operand of
+// `<<` / `<<-` (heredoc.inc, reached through scanRedir); the parser queues the
+// redirection (push); at the newline the lexer reads as many bodies as were
+// counted.  Sibling sites that emit a redirection operator must therefore all
+// fetch the operand through a function that reaches inc.
+
+func ruleHD6() Rule {
+	return Rule{ID: "HD6", Kind: "agreement", Floor: 4,
+		Doc: "every lexer state that emits a redirection operator (a case clause listing the `<<` token) fetches the operand word through a function that reaches heredoc.inc; a sibling that fetches it with the plain token scanner leaves the here-document uncounted, so its body is never read and is parsed as commands",
+		Run: func(c *Ctx, rr *core.RuleResult) {
+			pk := c.P.Pkgs["parser"]
+			hereTok := pk.Types.Scope().Lookup("HEREDOC")
+			inc := c.mustFn(rr, "parser.(*heredoc).inc")
+			raw := c.mustFn(rr, "parser.(*lexer).scanRawToken")
+			if hereTok == nil || inc == nil || raw == nil {
+				if hereTok == nil {
+					rr.Unkp(c.P, "parser|HEREDOC token", 0, "token constant HEREDOC not found")
+				}
+				return
+			}
+			cg := c.P.CG()
+			spawned := map[*core.Func]bool{}
+			for _, g := range c.goRoots() {
+				spawned[g.Target] = true
+			}
+			stop := func(f *core.Func) bool { return spawned[f] }
+			reach := map[*core.Func]map[*core.Func]bool{}
+			reachOf := func(g *core.Func) map[*core.Func]bool {
+				if r, ok := reach[g]; ok {
+					return r
+				}
+				r := cg.ReachableStop(stop, g)
+				reach[g] = r
+				return r
+			}
+			emit := c.fn("parser.(*lexer).emit")
+			for _, f := range c.funcsOfPkg("parser", false) {
+				info := f.Info()
+				f.OwnNodes(func(n ast.Node) bool {
+					cc, ok := n.(*ast.CaseClause)
+					if !ok {
+						return true
+					}
+					lists := false
+					for _, e := range cc.List {
+						if id, ok := ast.Unparen(e).(*ast.Ident); ok && info.Uses[id] == hereTok {
+							lists = true
+						}
+					}
+					if !lists {
+						return true
+					}
+					emits := false
+					for _, st := range cc.Body {
+						if c.callsFunc(info, st, emit) {
+							emits = true
+						}
+					}
+					if !emits {
+						return true
+					}
+					key := f.Name + "|operand of `<<` is counted"
+					var fetch []*ast.CallExpr
+					bad := false
+					for _, st := range cc.Body {
+						ast.Inspect(st, func(x ast.Node) bool {
+							if _, isLit := x.(*ast.FuncLit); isLit {
+								return false
+							}
+							call, ok := x.(*ast.CallExpr)
+							if !ok {
+								return true
+							}
+							for _, g := range cg.Callees(f, call) {
+								r := reachOf(g)
+								if r[raw] {
+									fetch = append(fetch, call)
+									if !r[inc] {
+										bad = true
+										rr.Bad(f, key, call.Pos(), "the operand of the redirection is fetched with `"+exprStr(call.Fun)+"`, which never reaches heredoc.inc: a here-document announced at this position is not counted and its body is parsed as commands")
+									}
+								}
+							}
+							return true
+						})
+					}
+					switch {
+					case bad:
+					case len(fetch) == 0:
+						rr.Unk(f, key, cc.Pos(), "the clause emits the operator but fetches no operand token")
+					default:
+						rr.OK(f, key, fetch[0].Pos(), "counted", "operand fetched through "+exprStr(fetch[0].Fun)+", which reaches heredoc.inc")
+					}
+					return true
+				})
 			}
 		}}
 }
